@@ -62,7 +62,15 @@ func init() {
 			return nil
 		}
 		present := x.ssPresent(st, store.S, key.S)
-		val := x.ssValue(st, store.S, key.S, et)
+		var val Value
+		if inner := pointee(et); inner != nil && x.isStructLike(inner) {
+			// decoding into a **T allocates a fresh T holding the stored value
+			ref := x.allocRef(st)
+			x.storeObject(st, ref, inner, x.ssValue(st, store.S, key.S, inner))
+			val = Value{K: KRef, T: et, S: ref}
+		} else {
+			val = x.ssValue(st, store.S, key.S, et)
+		}
 		err := x.freshErr(st, "ss.Get.err")
 		notFound := x.storageErrNotFound(st)
 		// absent => ErrNotFound; present => nil or some other (I/O, decode) error
